@@ -1,5 +1,7 @@
 package agwpe
 
+import "bytes"
+
 // C13 K3: every frame the Port/Conn code builds for a registered port passes
 // Port.write (port field = registered port) and carries the right callsigns/PID
 func H_c13_frame_port() {
@@ -11,7 +13,7 @@ func H_c13_frame_port() {
 	case 0:
 		f = connectFrame(from, to, port, nil)
 	case 1:
-		f = connectFrame(from, to, port, []string{"DIGI1", "DIGI2"})
+		f = connectFrame(from, to, port, []string{"DIGI1-10", "DIGI2"})
 	case 2:
 		f = disconnectFrame(from, to, port)
 	case 3:
@@ -34,7 +36,8 @@ func H_c13_frame_port() {
 		symAssert(f.PID == 0xf0, "data-frames-carry-pid-f0")
 	}
 	if which == 1 {
-		symAssert(len(f.Data) == 21 && f.Data[0] == 2 && string(f.Data[1:6]) == "DIGI1" && string(f.Data[11:16]) == "DIGI2", "via-list-layout")
+		want := append([]byte{2}, "DIGI1-10\x00\x00DIGI2\x00\x00\x00\x00\x00"...)
+		symAssert(bytes.Equal(f.Data, want), "via-list-layout (count byte, 10-byte NUL-padded callsigns)")
 	}
 	symReach("end")
 }
